@@ -183,6 +183,7 @@ def rangedNames (names : List Bytes) : Option Bytes :=
   match Pm.sortHL ((names.map toChars).foldl Pm.pushHost []) with
   | .ok hl => some ((Pm.rangedString hl).map fun c => c.toNat.toUInt8)
   | .abort => none
+  | .fuel => none      -- modelling artefact (iteration bound of the sort mirror exhausted, never observed): treated like the assert
 
 
 def pickState (askf : Oracle → Nat → Bytes → Oracle × Option (List (Int × Int)) × List Out) (s : Bytes) :
